@@ -35,6 +35,30 @@ pub(crate) unsafe fn stub_fast_back_unreachable(_s: &mut State) {
     panic!("inflate_fast_back reached: harness bounds were meant to exclude it")
 }
 
+/// contract stub for the symbol decoder seen from the block layer: "suspends at once, nothing moved"
+pub(crate) fn stub_laf_suspends<'a>(_s: &mut State<'a>) -> ControlFlow<ReturnCode, ()>
+where
+    'a: 'a,
+{
+    ControlFlow::Break(ReturnCode::Ok)
+}
+/// checked stubs for the copy primitives in harnesses whose bounds make a copy impossible
+pub(crate) fn stub_copy_match_unreachable<'a>(_w: &mut Writer<'a>, _o: usize, _l: usize)
+where
+    'a: 'a,
+{
+    panic!("Writer::copy_match reached: harness bounds were meant to exclude it")
+}
+pub(crate) fn stub_efw_unreachable<'a>(_w: &mut Writer<'a>, _win: &Window<'_>, _r: core::ops::Range<usize>)
+where
+    'a: 'a,
+{
+    panic!("Writer::extend_from_window reached: harness bounds were meant to exclude it")
+}
+pub(crate) fn stub_fill_unreachable<T: Clone>(_s: &mut [T], _v: T) {
+    panic!("<[T]>::fill reached: harness bounds were meant to exclude the code-length repeat codes")
+}
+
 pub(crate) unsafe extern "C" fn za_fail(_o: *mut core::ffi::c_void, _i: u32, _s: u32) -> *mut core::ffi::c_void {
     core::ptr::null_mut()
 }
